@@ -84,19 +84,11 @@ fn repr_cmp_same_base<const B: Word, const ABS: bool>(
         _ => {}
     }
 
-    // case 4: compare exponent and precision
+    // case 4: (removed) the precision of the context is not an upper bound of the number of
+    // digits actually stored (several operations return a significand longer than the precision),
+    // so it must not be used to order two numbers; the digit estimate below is always valid.
+    let _ = precision;
     let (lhs_exp, rhs_exp) = (lhs.exponent, rhs.exponent);
-    if let Some((lhs_prec, rhs_prec)) = precision {
-        // only compare when both number are not having arbitrary precision
-        if lhs_prec != 0 && rhs_prec != 0 {
-            if lhs_exp > rhs_exp + rhs_prec as isize {
-                return sign * Ordering::Greater;
-            }
-            if rhs_exp > lhs_exp + lhs_prec as isize {
-                return sign * Ordering::Less;
-            }
-        }
-    }
 
     // case 5: compare exponent and digits
     let (lhs_digits, rhs_digits) = (lhs.digits_ub(), rhs.digits_ub());
